@@ -22,7 +22,7 @@ PROPERTY = {
     'wall_budget': {'quick': 900, 'thorough': 3400},
 }
 
-LIST_OPS = ['setitem', 'delitem', 'insert', 'append', 'extend', 'remove', 'pop', 'pop_default', 'clear', 'set_child', 'remove_child', 'getitem']
+LIST_OPS = ['setitem', 'delitem', 'insert', 'append', 'extend', 'remove', 'pop', 'pop_default', 'clear', 'set_child', 'remove_child', 'getitem', 'rename_child']
 DICT_OPS = ['setitem', 'delitem', 'setattr', 'delattr', 'update', 'setdefault', 'pop', 'clear', 'set_child', 'remove_child', 'rename_child', 'getitem']
 KEYS = ['a', 'b', '_u', 1, 'c']
 
@@ -155,6 +155,13 @@ def _apply_list(node, model, op, idx, idx2, val, mval):
             ir = node.ayns.remove_child(idx)
         elif op == 'set_child':
             node.ayns.set_child(idx, val)
+        elif op == 'rename_child':
+            # not a list operation: it may be refused, or it has to keep the list consistent (children numbered 0..n-1)
+            try:
+                node.ayns.rename_child(idx, idx2)
+            except (IndexError, ValueError, TypeError, KeyError):
+                pass
+            model[:] = [_plain(x) for x in list.__iter__(node)]
     except (IndexError, ValueError, TypeError) as e:
         ie = type(e)
     return ie, me, ir, mr
@@ -330,6 +337,28 @@ def c17_dict_step(split, present, ki, ki2, vk):
     return True
 
 
+def c17_extend_self(split, k):
+    """l.extend(l) terminates and doubles the list like the builtin (run in a helper thread under a watchdog)"""
+    import threading
+    reset()
+    k = pick(k, 3)
+    out = {}
+
+    def body():
+        node = ConfigList(_elems(k + 1, 0))
+        node.extend(node)
+        out['len'] = len(node)
+        out['inv'] = invariant(node)
+    with untraced():
+        t = threading.Thread(target=body, daemon=True)
+        t.start()
+        t.join(5.0)
+        alive = t.is_alive()
+    note(hang=alive, result=repr(out))
+    wit('checked')
+    return (not alive) and out.get('len') == 2 * (k + 1) and out.get('inv') is None
+
+
 ALPHA = ['a', 'Z', '_', '0', 'a0', '_a', '00']
 INTS = [-12, -1, 0, 1, 7, 12]
 
@@ -383,6 +412,8 @@ HARNESSES = {
                              [('n', 'int', 0, 5), ('idx', 'int', -7, 7), ('idx2', 'int', -5, 5), ('vk', 'int', 0, 3)], _splits_list,
                              doc='one (or two) list operations with symbolic indices from every start state of bounded length; invariant + builtin-list differential',
                              witnesses=('applied',)),
+    'c17_extend_self': Harness('c17_extend_self', c17_extend_self, [('k', 'int', 0, 2)], lambda tier: [{}],
+                               doc='extend(self) under a watchdog thread', witnesses=('checked',)),
     'c17_dict_step': Harness('c17_dict_step', c17_dict_step,
                              [('present', 'int', 0, 15), ('ki', 'int', 0, len(KEYS) - 1), ('ki2', 'int', 0, len(KEYS) - 1), ('vk', 'int', 0, 3)], _splits_dict,
                              doc='one mapping operation from every start state over the key pool; invariant + builtin-dict differential', witnesses=('applied',)),
